@@ -328,6 +328,11 @@ pub fn inject(case: &FaultCase) -> Option<Faulted> {
                 ("a:00%2Cb:1", "checksum:odd-digits"),
                 ("a%3A0x", "checksum:non-hex"),
                 ("é:00,É:11", "checksum:duplicate-algorithm"),
+                ("a:0,b:00", "checksum:odd-digits"),
+                ("a:zz,b:00", "checksum:non-hex"),
+                ("b:00,a:z0", "checksum:non-hex"),
+                ("a:00,b,c:11", "checksum:no-colon"),
+                ("m:00,a:1,z:22", "checksum:odd-digits"),
             ];
             let (value, cell) = BAD[ch.next(BAD.len())];
             sp.items.retain(|it| !it.0.eq_ignore_ascii_case("checksum"));
